@@ -310,9 +310,15 @@ def gen_world(rng, ntorrents=None, allow_shared=True, empties=False, export_heav
                     w.put_link(fresh_under(rng.choice(scan_roots), leaf), p)   # hard-linked duplicate
             # a copy under a name that is not valid UTF-8 (paths are byte strings all the way)
             if rng2.random() < 0.08:
-                rawp = tuple(list(rng2.choice(scan_roots)) + [b"\xff\xfe_" + leaf[:40]])
+                rawdir = list(rng2.choice(scan_roots))
+                rawp = tuple(rawdir + [b"\xff\xfe_" + leaf[:40]])
                 if w.free(rawp):
-                    w.put_file(rawp, f.content if rng2.random() < 0.6 else f.content[::-1])
+                    good = rng2.random() < 0.6
+                    w.put_file(rawp, f.content if good else f.content[::-1])
+                    # a sibling whose name differs only in the invalid bytes (the two names have the same lossy rendering)
+                    sib = tuple(rawdir + [b"\xfe\xff_" + leaf[:40]])
+                    if rng2.random() < 0.6 and w.free(sib):
+                        w.put_file(sib, f.content[::-1] if good else f.content)
             # a few wrong-length neighbours with the same name
             if rng.random() < 0.2:
                 w.put_file(fresh_under(rng.choice(scan_roots), leaf), f.content + b"x")
